@@ -1,6 +1,7 @@
 //@ variant: tcp TU=libxcm/tp/tcp/xcm_tp_tcp.c DEFS=-DXF_TCP P=tcp
 //@ variant: tls TU=libxcm/tp/tls/xcm_tp_tls.c DEFS=-DXF_TLS P=tls
 //@ tu: $TU
+//@ replay: framing_native.py
 //@ defs: $DEFS
 //@ loops: framing.loops
 //@ enforce: buffer_hdr
